@@ -589,3 +589,50 @@ M("u4-mux-no-fold", "C15", "fire U4", "src/circuit.rs",
             return x0;
         }""",
   """    pub fn push_mux(&mut self, s: GateIndex, x0: GateIndex, x1: GateIndex) -> GateIndex {""", "muxing a wire with itself costs gates")
+
+# ---------------------------------------------------------------- C03
+REVERT("revert-neg-overflow", "C03", "fire A1", "4cf6536", "pre-fix tree: -MIN does not panic")
+REVERT("revert-div-overflow", "C03", "fire A1", "1bd0329", "pre-fix tree: MIN / -1 does not panic")
+REVERT("revert-sign-extension", "C03", "fire A2", "4aedaf3", "pre-fix tree: extension fills only old_size bits")
+M("a2-cast-extends-with-target-type", "C03", "fire A2", "src/compile.rs",
+  """                        extend_to_bits(&mut expr, ty_expr, size_after_cast);""",
+  """                        extend_to_bits(&mut expr, ty, size_after_cast);""", "u8 as i16 sign-extends")
+M("a3-div-pow2-to-shift", "C03", "fire A3", "src/compile.rs",
+  """                let ty_x = &x.ty;
+                let ty_y = &y.ty;
+                let mut x = x.compile(prg, env, circuit);""",
+  """                if let (Op::Div, ExprEnum::NumSigned(2, suffix)) = (op, &y.inner) {
+                    let _ = suffix;
+                    return Expr {
+                        inner: ExprEnum::Op(
+                            Op::ShiftRight,
+                            x.clone(),
+                            Box::new(Expr {
+                                inner: ExprEnum::NumUnsigned(1, UnsignedNumType::U8),
+                                meta,
+                                ty: Type::Unsigned(UnsignedNumType::U8),
+                            }),
+                        ),
+                        meta,
+                        ty: ty.clone(),
+                    }
+                    .compile(prg, env, circuit);
+                }
+                let ty_x = &x.ty;
+                let ty_y = &y.ty;
+                let mut x = x.compile(prg, env, circuit);""", "x / 2 lowered as x >> 1 (rounds towards -inf for negative x)")
+M("a3-mod-uses-quotient", "C03", "quiet", "src/compile.rs",
+  """                        circuit.push_panic_if(all_zero, PanicReason::DivByZero, meta);
+                        if is_signed(ty) {
+                            circuit.push_signed_division_circuit(&mut x, &mut y).1""",
+  """                        circuit.push_panic_if(all_zero, PanicReason::DivByZero, meta);
+                        if is_signed(ty) {
+                            let (_q, r) = circuit.push_signed_division_circuit(&mut x, &mut y);
+                            r""", "behaviour-preserving: destructured instead of .1")
+M("a1-shift-no-raise-for-signed", "C03", "fire A1", "src/compile.rs",
+  """                circuit.push_panic_if(overflow, PanicReason::Overflow, meta);
+                bits_unshifted""",
+  """                if !x_is_signed {
+                    circuit.push_panic_if(overflow, PanicReason::Overflow, meta);
+                }
+                bits_unshifted""", "signed shifts by >= width no longer raise")
